@@ -16,7 +16,7 @@ import (
 	"verif/gen"
 )
 
-const c18LibKinds = 12
+const c18LibKinds = 13
 
 func init() {
 	Register(&Prop{
@@ -136,7 +136,7 @@ func c18Lib(c *Ctx, o *Obs, r *rand.Rand, kind int) {
 	text := m.Newick()
 	seed := r.Int63()
 	names := []string{"RandomUniformBinaryTree", "RandomYuleBinaryTree", "RandomCaterpillarBinaryTree", "RandomBalancedBinaryTree", "ShuffleTips", "Resolve",
-		"RotateInternalNodes", "ParsimonyAsr(protein,X)", "ParsimonyAcr", "WriteNexus(translate)", "RenameAuto", "ParsimonyAsr(random-resolve)"}
+		"RotateInternalNodes", "ParsimonyAsr(protein,X)", "ParsimonyAcr", "WriteNexus(translate)", "RenameAuto", "ParsimonyAsr(random-resolve)", "ParsimonyAcr(random-resolve)"}
 	name := names[kind]
 	o.Class = "lib/" + name
 	o.Sample = fmt.Sprintf("%s seed %d on %s", name, seed, Trunc(text, 200))
@@ -222,6 +222,20 @@ func c18Lib(c *Ctx, o *Obs, r *rand.Rand, kind int) {
 			id := 1
 			err := t.RenameAuto(true, true, 8, &id, nm)
 			return t.Newick() + fmt.Sprint(err)
+		case 12:
+			t := mustParse(text)
+			st := map[string]string{}
+			rr := rand.New(rand.NewSource(seed))
+			for _, n := range m.SortedTips() {
+				st[n] = string(rune('A' + rr.Intn(3)))
+			}
+			res, steps, err := acr.ParsimonyAcr(t, st, []int{acr.ALGO_DOWNPASS, acr.ALGO_DELTRAN, acr.ALGO_ACCTRAN}[int(seed%3)], true)
+			var ks []string
+			for k, v := range res {
+				ks = append(ks, k+"="+v)
+			}
+			sort.Strings(ks)
+			return fmt.Sprint(steps, err, ks) + t.Newick()
 		default:
 			t := mustParse(text)
 			steps, err := asr.ParsimonyAsr(t, mkAlign(false), asr.ALGO_ACCTRAN, true)
